@@ -586,6 +586,8 @@ def execute(scenario, tape=None, keep_events=False):
     res.nontrivial = nontrivial
     res.digest = log.digest()
     res.tape = out_tape
+    if out_tape is not None:
+        res.stats["schedule"] = hashlib.sha256(repr(out_tape).encode()).hexdigest()[:16]
     res.steps = len(sc["sends"])
     res.stats["sends"] = len(sc["sends"])
     res.stats["clear"] = clear_sends
@@ -619,6 +621,10 @@ def A_fmt(sat):
 def merge_stats(agg, st, final=False):
     agg["sends"] = agg.get("sends", 0) + st.get("sends", 0)
     agg["clear"] = agg.get("clear", 0) + st.get("clear", 0)
+    agg.setdefault("schedules", set())
+    if "schedule" in st:
+        agg["schedules"].add(st["schedule"])
+    agg["schedules"] |= st.get("schedules", set())
 
 
 def finalise_stats(st):
@@ -627,8 +633,8 @@ def finalise_stats(st):
         "clean_stratum_runs": None,
         "valid_sends_outside_every_open_finding": st.get("clear", 0),
         "valid_sends_outside_every_open_finding_note": "sends whose feature record satisfies no open known finding's where-clause and that passed all invariants: the part of the search open findings cannot shadow",
-        "distinct_interleavings": None,
-        "distinct_interleavings_measure": "not applicable (request/response client; no scheduler)",
+        "distinct_interleavings": len(st.get("schedules", ())) or None,
+        "distinct_interleavings_measure": "distinct schedule tapes in the concurrent-callers stratum (request/response client, no scheduler in the other strata)",
     }
 
 
